@@ -1,8 +1,31 @@
-from .base import Check
+"""C05 -- Manifolds and CrossSections are values.
+
+Reference model: object -> fingerprint frozen at birth. After every step of a
+seeded history every live object is re-observed (getters in a seeded order)
+and compared with its frozen value; copies must equal their source."""
+import gen
+from .progbase import ProgCheck
 
 
-class Stub(Check):
+class C05(ProgCheck):
     prop = "C05"
+    flag = "c05"
+    level = "exploration"
+    flavours = ["ser", "ser-asan", "par"]
+    assumptions = [
+        "observation = every public getter (Status, counts, Genus, OriginalID, BoundingBox, Epsilon, Tolerance, full GetMeshGL64; "
+        "ToPolygons/Area/Bounds/Tolerance for CrossSections), hashed field-wise",
+        "pools <= 12 Manifolds and 8 CrossSections, histories <= 40 steps",
+    ]
+    arms = [
+        ("history", 60, {"mix": gen.MIX_HISTORY, "nops": (10, 40), "flavours": ["ser", "ser", "ser-asan", "par"], "thr": [64, 16]}),
+        ("history2d", 15, {"mix": dict(gen.MIX_2D, xcopy=3, xassign=3, xforce=3, xscale=4, xsettol=1), "nops": (8, 30),
+                            "flavours": ["ser", "ser-asan"]}),
+    ]
+
+    def finish_cov(self):
+        self.cov["rule"] = ("one evaluation = one seeded history (op sequence over a growing pool) with every live object "
+                            "re-fingerprinted after every step; distinct = distinct (history, decision hash); non-trivial = at least 3 objects")
 
 
-CHECK = Stub()
+CHECK = C05()
